@@ -12,7 +12,7 @@ typedef struct NodeData { struct NodeData *next; gvec point; gvec value; } NodeD
 typedef struct TensorData { struct TensorData *next; double weight; gvec tensor; int npoints; bool loaded[TSG_NPT]; size_t loaded_size; } TensorData;
 typedef struct { NodeData bb; } NodeDataList;      /* bb: the before_begin sentinel, bb.next is begin() */
 typedef struct { TensorData bb; } TensorDataList;
-typedef struct { TensorDataList tensors; NodeDataList data; } DynamicConstructorDataGlobal;
+typedef struct { TensorDataList tensors; NodeDataList data; size_t num_dimensions, num_outputs; } DynamicConstructorDataGlobal;
 enum { T_NUM = 1, T_VEC };
 #define TAPE_MAX (4 * TSG_NL + 4)
 typedef struct { int kind; double num; int id; size_t len; } token;
@@ -118,6 +118,7 @@ void h_clearTesnors(void){
  * the tensor and the node (slot in [0, npoints) when the node belongs to the tensor, -1 otherwise), logged per (tensor, node) pair. */
 static int tsg_generateNestedPoints(TensorData *t){ int n = nondet_int(); __CPROVER_assume(n >= 0 && n <= TSG_NPT); return n; }
 static void tsg_loaded_assign(TensorData *t, size_t n, bool v){ __CPROVER_assert(n <= TSG_NPT, "shim: flag capacity suffices"); t->loaded_size = n; for (size_t k = 0; k < TSG_NPT; k++) t->loaded[k] = v; }
+static bool tsg_all_true(const TensorData *t){ for (size_t k = 0; k < TSG_NPT; k++) if (k < t->loaded_size && !t->loaded[k]) return false; return true; }
 static size_t tsg_loaded_index(const TensorData *t, int i){ __CPROVER_assert(i >= 0 && (size_t) i < t->loaded_size, "C17 reloadPoints: the flag index is inside the vector sized for the tensor's points"); return (size_t) i; }
 #define TSG_PAIRS (TSG_NL * TSG_NL)
 const TensorData *g_pt[TSG_PAIRS]; const NodeData *g_pn[TSG_PAIRS]; int g_ps[TSG_PAIRS]; int g_npairs;
@@ -143,10 +144,35 @@ void h_reloadPoints(void){
   const TensorData *t = g.tensors.bb.next; for (int k = 0; k < TSG_NL; k++) if (k < a_t && t != NULL) t = t->next;
   if (t != NULL) {
     __CPROVER_assume(a_s >= 0 && a_s < t->npoints);
-    __CPROVER_assert(t->loaded_size == (size_t) t->npoints, "C17 reloadPoints: one flag per point of the tensor");
-    bool stored = false;        /* is some stored node the point a_s of tensor t? */
+    bool stored = false, all = true;        /* is some stored node the point a_s of tensor t?  are all points of t stored? */
     for (const NodeData *p = g.data.bb.next; p != NULL; p = p->next) if (tsg_getSlot(t, p) == a_s) stored = true;
-    __CPROVER_assert(t->loaded[a_s] == stored, "C17 after reading a checkpoint a point of a candidate tensor is flagged loaded exactly when its value is in the stored node list (a checkpointed sample is not requested again, a missing one is)");
+    for (int s = 0; s < TSG_NPT; s++) if (s < t->npoints) { bool hit = false; for (const NodeData *p = g.data.bb.next; p != NULL; p = p->next) if (tsg_getSlot(t, p) == s) hit = true; if (!hit) all = false; }
+    if (all) __CPROVER_assert(t->loaded_size == 0, "C17/C06 after reading, a candidate tensor whose points are all stored carries the 'complete' mark (empty flag vector) that addTensor / addNewNode use: it is ejected like in the original grid");
+    else {
+      __CPROVER_assert(t->loaded_size == (size_t) t->npoints, "C17 reloadPoints: one flag per point of an incomplete tensor");
+      __CPROVER_assert(t->loaded[a_s] == stored, "C17 after reading a checkpoint a point of a candidate tensor is flagged loaded exactly when its value is in the stored node list (a checkpointed sample is not requested again, a missing one is)");
+    }
   }
+  __CPROVER_assert(0, "VACUITY-CANARY");
+}
+
+//@ text3
+static gvec gvec_slice(gvec v, int ibegin, int iend){
+  __CPROVER_assert(0 <= ibegin && ibegin <= iend && (size_t) iend <= v.len, "C11 restrictData: the output range lies inside every stored value vector");
+  gvec r = { v.id, (size_t)(iend - ibegin) }; return r;      /* the slice keeps the identity of the vector it was cut from */
+}
+//@ harness h_restrictData
+/* class invariant of DynamicConstructorDataGlobal: every stored node carries num_outputs values (ejectCompleteTensor copies num_outputs entries of each).
+ * A copy restricted to the outputs [ibegin, iend) must satisfy it for iend - ibegin outputs. */
+void h_restrictData(void){
+  DynamicConstructorDataGlobal g; int a_nn = nondet_int(), a_b = nondet_int(), a_e = nondet_int();
+  g.num_dimensions = 2; g.num_outputs = nondet_size_t();
+  __CPROVER_assume(a_nn >= 0 && a_nn <= TSG_NL && g.num_outputs >= 1 && g.num_outputs <= 20 && 0 <= a_b && a_b < a_e && (size_t) a_e <= g.num_outputs);
+  node_pool_used = 0; g.data.bb.next = NULL; g.tensors.bb.next = NULL;
+  for (int k = 0; k < TSG_NL; k++) if (k < a_nn) tsg_fl_emplace_front_NodeData(&g.data, vec_sym(2), vec_sym(g.num_outputs));     /* invariant at entry */
+  DynamicConstructorDataGlobal_restrictData(&g, a_b, a_e);
+  __CPROVER_assert(g.num_outputs == (size_t)(a_e - a_b), "C11 the restricted copy of the construction data knows its new number of outputs (what ejectCompleteTensor copies per node)");
+  for (const NodeData *p = g.data.bb.next; p != NULL; p = p->next)
+    __CPROVER_assert(p->value.len == g.num_outputs, "C11 class invariant after restrictData: every stored node carries num_outputs values");
   __CPROVER_assert(0, "VACUITY-CANARY");
 }
